@@ -293,8 +293,72 @@ print("RULES=" + json.dumps(out))
 GUARDED = {"blocking-async": "rust", "clone-abuse": "rust", "unwrap-abuse": "rust",
            "collection-pipeline.embedded-filter": "python", "improper-logging.conditional-verbose": "python",
            "stateless-class.violation": "python"}
+# rules whose check() itself starts with `if context.language != L: return []`
+INLINE_GUARDED = {"lazy-ignores": "python"}
+# rules that leave the language choice to a dispatch helper: (file, class, method, documented languages). The helper must
+# be a pure dispatch: `if language <test on documented languages>: return <analysis>` ... and a final `return []`
+DELEGATED = {"dry.duplicate-code": ("src/linters/dry/file_analyzer.py", "FileAnalyzer", "analyze",
+                                    {"python", "typescript", "javascript"})}
 # documented as applying to several file types (not "language-specific linters" in the sense of the property)
-MULTI_FILE_TYPE = {"dry.duplicate-code", "file-header.validation", "file-placement", "lazy-ignores"}
+MULTI_FILE_TYPE = {"file-header.validation", "file-placement"}
+
+
+def _lang_consts(test):
+    """The language constants a dispatch test compares `language` / `context.language` with (None: not such a test)."""
+    def const(e):
+        if isinstance(e, ast.Constant) and isinstance(e.value, str):
+            return e.value
+        if isinstance(e, ast.Attribute) and isinstance(e.value, ast.Name) and e.value.id == "Language":
+            return e.attr.lower()
+        return None
+    if not (isinstance(test, ast.Compare) and ast.unparse(test.left) in ("language", "context.language") and len(test.ops) == 1):
+        return None
+    c = test.comparators[0]
+    if isinstance(test.ops[0], ast.Eq):
+        return {const(c)} if const(c) else None
+    if isinstance(test.ops[0], ast.In) and isinstance(c, (ast.Tuple, ast.List, ast.Set)):
+        vals = {const(x) for x in c.elts}
+        return None if None in vals else vals
+    return None
+
+
+def _dispatch_shape(fn, documented):
+    """None if fn is a pure language dispatch onto the documented languages, else the reason."""
+    body = [st for st in fn.body if not (isinstance(st, ast.Expr) and isinstance(st.value, ast.Constant))]
+    if not body or not (isinstance(body[-1], ast.Return) and ast.unparse(body[-1].value) == "[]"):
+        return "the dispatch does not end in `return []` (languages it does not name fall through to an analysis)"
+    seen = set()
+    for st in body[:-1]:
+        if not (isinstance(st, ast.If) and not st.orelse and len(st.body) == 1 and isinstance(st.body[0], ast.Return)):
+            return f"line {st.lineno}: not of the form `if <language test>: return <analysis>`"
+        langs = _lang_consts(st.test)
+        if langs is None:
+            return f"line {st.lineno}: the test is not a comparison of the language with constants"
+        if ast.unparse(st.body[0].value) == "[]":
+            continue
+        if not langs <= documented:
+            return f"line {st.lineno}: analyses {sorted(langs - documented)}, documented: {sorted(documented)}"
+        seen |= langs
+    if seen != documented:
+        return f"analyses {sorted(seen)}, documented: {sorted(documented)}"
+    return None
+
+
+def _inline_guard_language(chk):
+    """check() starts with `if context.language != L: return []`."""
+    for st in chk.body:
+        if isinstance(st, ast.Expr) and isinstance(st.value, ast.Constant):
+            continue
+        if isinstance(st, ast.If) and isinstance(st.test, ast.Compare) and ast.unparse(st.test.left) == "context.language" \
+                and len(st.test.ops) == 1 and isinstance(st.test.ops[0], ast.NotEq) and len(st.body) == 1 \
+                and isinstance(st.body[0], ast.Return) and ast.unparse(st.body[0].value) == "[]":
+            c = st.test.comparators[0]
+            if isinstance(c, ast.Constant):
+                return c.value
+            if isinstance(c, ast.Attribute) and isinstance(c.value, ast.Name) and c.value.id == "Language":
+                return c.attr.lower()
+        return None
+    return None
 
 
 def _method(tree, cls, name):
@@ -388,6 +452,19 @@ def c15_language_guards(ctx):
                 why = f"_should_analyze insists on {_guard_language(sa)!r}, documented: {GUARDED[r['rule_id']]!r}"
             else:
                 note = f"guarded by _should_analyze: {GUARDED[r['rule_id']]} only"
+        elif r["rule_id"] in INLINE_GUARDED:
+            chk = _method(tree, r["cls"], "check")
+            got = _inline_guard_language(chk) if chk is not None else None
+            if got != INLINE_GUARDED[r["rule_id"]]:
+                why = f"check() does not start with `if context.language != {INLINE_GUARDED[r['rule_id']]}: return []` (found {got!r})"
+            else:
+                note = f"check() guarded inline: {got} only (and proved: contracts/c15_language.py)"
+        elif r["rule_id"] in DELEGATED:
+            dfile, dcls, dmeth, documented = DELEGATED[r["rule_id"]]
+            dtree = _without_docstrings(ast.parse(open(os.path.join(repo, dfile), encoding="utf-8").read()))
+            fn = _method(dtree, dcls, dmeth)
+            why = f"dispatch helper {dcls}.{dmeth} not found" if fn is None else _dispatch_shape(fn, documented)
+            note = f"language choice delegated to {dcls}.{dmeth}: pure dispatch onto {sorted(documented)} (and proved: analyze~c15)"
         elif r["rule_id"] in MULTI_FILE_TYPE:
             note = "documented multi-file-type rule (not restricted to one language)"
         else:
@@ -450,6 +527,24 @@ try:
             if got.get(name, []) != alone[name]:
                 bad.append({"order": [x, y], "file": name, "alone": len(alone[name]), "in_run": len(got.get(name, [])),
                             "problem": "findings of a file depend on the other file of the run"})
+    # recognised languages that a linter does not support: duplicated brace-style code in Go / Java / Rust files, with
+    # the (cross-file) DRY linter switched on -- DRY is documented for Python, TypeScript and JavaScript only; Go and Java
+    # have no source-analysis linter at all
+    block = "".join(f"    total_{i} = compute_value(input_{i}, {i}) + offset_{i};\n" for i in range(6))
+    other = {}
+    for ext in ("go", "java", "rs"):
+        for k in (1, 2):
+            other[f"dup{k}.{ext}"] = "fn f" + str(k) + "() {\n" + block + "}\n"
+    for name, content in other.items():
+        (tmp / name).write_text(content, encoding="utf-8")
+    o = Orchestrator(project_root=tmp)
+    o.config = {"dry": {"enabled": True, "min_duplicate_lines": 3, "cache_enabled": False, "storage_mode": "memory"}}
+    for v in o.lint_files([tmp / name for name in other]):
+        n += 1
+        ext = Path(v.file_path).suffix
+        file_level = v.rule_id.startswith(("file-header", "file-placement"))
+        if (ext in (".go", ".java") and not file_level) or (ext == ".rs" and v.rule_id.startswith("dry.")):
+            bad.append({"file": Path(v.file_path).name, "rule": v.rule_id, "problem": "a linter reports on a language it does not support"})
 finally:
     shutil.rmtree(tmp, ignore_errors=True)
 print("RESULT=" + json.dumps({"cases": n, "bad": bad[:20]}))
@@ -463,7 +558,8 @@ def c15_language_per_file(ctx):
     shebang) ... a file of an unrecognised type yields no source-analysis violation." On the real Orchestrator.lint_files:
     9 file kinds (known extensions in both cases, extensionless with python / other / no shebang, unrecognised
     extensions); every file alone gets the documented treatment, and in every ordered pair of files each file's
-    per-file findings are exactly those it gets alone (language detection has no memory across files). The symbolic
+    per-file findings are exactly those it gets alone (language detection has no memory across files); duplicated code
+    in Go / Java / Rust files gets no finding from linters that do not support those languages. The symbolic
     counterpart is the contract of Orchestrator.lint_file (contracts/c10_orchestrator.py: language == detect_language_spec
     of that file) together with detect_language (contracts/c15_language.py)."""
     import time
@@ -481,6 +577,6 @@ def c15_language_per_file(ctx):
                  "model_inputs": {"stderr": (p.stderr or "")[-1500:]}, "ms": round((time.time() - t0) * 1000)}]
     bad = res["bad"]
     return [{"name": name, "kind": "bounded", "verdict": "passed" if not bad else "refuted", "tool": "cpython differential",
-             "budget": "9 file kinds alone + all 72 ordered pairs", "cases": res["cases"],
+             "budget": "9 file kinds alone + all 72 ordered pairs; duplicated Go/Java/Rust files with DRY on", "cases": res["cases"],
              "note": "" if not bad else f"{bad[:2]}", "witness_confirmed": bool(bad),
              "model_inputs": {"disagreements": bad} if bad else None, "ms": round((time.time() - t0) * 1000)}]
